@@ -18,7 +18,7 @@ import (
 )
 
 // nodeKinds of the C03 layout generator (the assignment the property quantifies over).
-var c03Kinds = []string{"none", "new-available", "new-unavailable", "old-available", "old-available", "old-unavailable", "old-unavailable", "old-terminating", "old-terminating-unready", "new-terminating-unready", "old-stuck-unscheduled", "old-terminating-past-grace", "adopted-available", "adopted-unavailable", "old-failed", "old-failed-x2", "new-failed-x2"}
+var c03Kinds = []string{"none", "new-available", "new-unavailable", "old-available", "old-available", "old-unavailable", "old-unavailable", "old-terminating", "old-terminating-unready", "new-terminating-unready", "old-stuck-unscheduled", "old-terminating-past-grace", "adopted-available", "adopted-unavailable", "old-failed", "old-failed-x2", "new-failed-x2", "old-available-skewed"}
 
 func forksN() int {
 	if thorough() {
@@ -30,7 +30,7 @@ func forksN() int {
 // TestC03Budget: one sync of the active replica set over a generated layout,
 // executed on several forks of the store (Go map order), judged by the budget monitor.
 func TestC03Budget(t *testing.T) {
-	rec := evid.New("TestC03Budget", "C03", "layout = 1-12 targeted nodes each in {no pod, up-to-date available/unavailable, outdated available/unavailable/terminating (Ready or not, inside the grace period), up-to-date terminating, stuck unscheduled >10min, terminating past grace, adopted old-DaemonSet pod available/unavailable, one or two pods in phase Failed (the second is kept by the failed-pod back-off)}; the outdated template plain or with its own matchFields exclusion on the node name; both node-assignment modes x maxUnavailable x maxPodSchedulerFailure (int or percent), one active sync on several store forks; non-trivial = at least one outdated-available and one outdated-unavailable pod and fewer deletions allowed than candidates; distinct by layout+strategy rendering")
+	rec := evid.New("TestC03Budget", "C03", "layout = 1-12 targeted nodes each in {no pod, up-to-date available/unavailable, outdated available (Ready transition in the past or stamped 2s ahead by a skewed kubelet clock)/unavailable/terminating (Ready or not, inside the grace period), up-to-date terminating, stuck unscheduled >10min, terminating past grace, adopted old-DaemonSet pod available/unavailable, one or two pods in phase Failed (the second is kept by the failed-pod back-off)}; the outdated template plain or with its own matchFields exclusion on the node name; both node-assignment modes x maxUnavailable x maxPodSchedulerFailure (int or percent), one active sync on several store forks; non-trivial = at least one outdated-available and one outdated-unavailable pod and fewer deletions allowed than candidates; distinct by layout+strategy rendering")
 	t.Cleanup(func() {
 		if !t.Failed() {
 			rec.Done()
@@ -73,6 +73,10 @@ func TestC03Budget(t *testing.T) {
 				p.addPod(node, 'B', PSUnavailable, time.Minute)
 			case "old-available":
 				p.addPod(node, old, PSAvailable, 15*time.Minute)
+				oldAvail++
+			case "old-available-skewed":
+				// Ready, but the kubelet stamped the transition slightly ahead of the controller's clock: still an available pod
+				p.addPod(node, old, PSAvailableSkew, 15*time.Minute)
 				oldAvail++
 			case "old-unavailable":
 				p.addPod(node, old, PSUnavailable, 15*time.Minute)
@@ -143,7 +147,7 @@ func TestC03Budget(t *testing.T) {
 // TestC09Spacing: two sync requests of the active replica set around reconcileFrequency, the first
 // at a generated fraction of a second (stored timestamps are truncated to seconds), work pending for both.
 func TestC09Spacing(t *testing.T) {
-	rec := evid.New("TestC09Spacing", "C09", "active replica set with pods to create and outdated pods to delete; sync 1 at second fraction f in {0, .2, .5, .8, .95}, sync 2 after a gap of reconcileFrequency + d, d in {-1.8s ... +0.3s}; reconcileFrequency in {2s, 3s, 10s}; oracle (rate monitor): two syncs that create or delete pods are at least reconcileFrequency - 1s apart when the first status write succeeded, and every sync respects the slow-start bound; non-trivial = the second request arrives less than reconcileFrequency after the first; distinct by (frequency, fraction, gap, layout)")
+	rec := evid.New("TestC09Spacing", "C09", "active replica set with pods to create and/or outdated pods to delete (mixed, only outdated, only missing; maxUnavailable 1-3; kubelet progress between the syncs or not); sync 1 at second fraction f in {0, .2, .5, .8, .95}, sync 2 after a gap of reconcileFrequency + d, d in {-1.8s ... +0.3s}; reconcileFrequency in {2s, 3s, 10s}; optionally one pod deletion or creation of the first sync is rejected (generic or typed error) while its status write succeeds; oracle (rate monitor): two syncs that create or delete pods are at least reconcileFrequency - 1s apart when the first status write succeeded, and every sync respects the slow-start bound; non-trivial = the second request arrives less than reconcileFrequency after the first; distinct by (frequency, fraction, gap, layout)")
 	t.Cleanup(func() {
 		if !t.Failed() {
 			rec.Done()
@@ -160,20 +164,39 @@ func TestC09Spacing(t *testing.T) {
 			c.AddNode(fmt.Sprintf("n%02d", i), map[string]string{"zone": "a"}, nil)
 		}
 		st := edsv1.ExtendedDaemonSetSpecStrategy{ReconcileFrequency: &metav1.Duration{Duration: freq}}
-		st.RollingUpdate.MaxUnavailable = gen.ParseIntOrPercent("1")
+		st.RollingUpdate.MaxUnavailable = gen.IntOrPercent(rt, "maxUnavailable", []string{"1", "2", "3"})
 		st.RollingUpdate.SlowStartAdditiveIncrease = gen.ParseIntOrPercent("1")
 		st.RollingUpdate.SlowStartIntervalDuration = &metav1.Duration{Duration: time.Hour}
 		p := prepare(c, "ns1", "foo", st, nil, "AB")
 		active := p.RS['B']
-		// half of the nodes hold an outdated available pod, the others nothing: work for creation and deletion
+		// mixed: half of the nodes hold an outdated available pod, the others nothing (work for creation and deletion);
+		// only-outdated: the first sync can only delete, a later one only create on the freed nodes; only-missing: only creations
+		layoutKind := rapid.SampledFrom([]string{"mixed", "only-outdated", "only-missing"}).Draw(rt, "layout")
+		kubeletBetween := rapid.Bool().Draw(rt, "kubeletBetweenSyncs")
 		c.Advance(time.Hour + frac)
-		for i := 0; i < n/2; i++ {
+		withPod := map[string]int{"mixed": n / 2, "only-outdated": n, "only-missing": 0}[layoutKind]
+		for i := 0; i < withPod; i++ {
 			p.addPod(fmt.Sprintf("n%02d", i), 'A', PSAvailable, 30*time.Minute)
 		}
 		h := mon.NewHistory()
 		var vs []mon.V
+		// in the first sync one pod write may fail (the status write still succeeds: the spacing obligation stands)
+		failWrite := rapid.SampledFrom([]string{"", "", "delete", "create"}).Draw(rt, "failingPodWrite")
+		failKind := rapid.SampledFrom([]sim.FaultKind{sim.FaultReject, sim.FaultRejectTyped}).Draw(rt, "errorClass")
+		hit := false
+		c.Faults = func(call *sim.Call) sim.FaultKind {
+			if !hit && failWrite != "" && call.Kind == "Pod" && call.Verb == failWrite {
+				hit = true
+				return failKind
+			}
+			return sim.FaultNone
+		}
 		r1 := c.Reconcile(sim.ActorERS, "ns1", active)
+		c.Faults = nil
 		vs = append(vs, mon.Check(r1, on, h)...)
+		if kubeletBetween {
+			c.KubeletProgress() // deleted pods vanish, created pods become Ready: the next sync finds new work
+		}
 		c.Advance(freq + d)
 		r2 := c.Reconcile(sim.ActorERS, "ns1", active)
 		vs = append(vs, mon.Check(r2, on, h)...)
@@ -191,11 +214,11 @@ func TestC09Spacing(t *testing.T) {
 			return k
 		}
 		nt := d < 0 && writes(r1) > 0
-		rec.Case(nt, evid.FP(freq, frac, d, n), fmt.Sprintf("second-sync-writes=%v", writes(r2) > 0))
+		rec.Case(nt, evid.FP(freq, frac, d, n, failWrite, failKind, layoutKind, kubeletBetween, st.RollingUpdate.MaxUnavailable.String()), fmt.Sprintf("second-sync-writes=%v", writes(r2) > 0), fmt.Sprintf("pod-write-failed-in-first-sync=%v", hit))
 		rec.Steps(3)
 		if nt {
 			rec.Sample(map[string]interface{}{"reconcileFrequency": freq.String(), "fraction": frac.String(), "gap": (freq + d).String(), "writes": []int{writes(r1), writes(r2), writes(r3)}})
 		}
-		settle(rt, rec, vs, map[string]interface{}{"reconcileFrequency": freq.String(), "fraction": frac.String(), "gap": (freq + d).String(), "nodes": n}, n, "")
+		settle(rt, rec, vs, map[string]interface{}{"reconcileFrequency": freq.String(), "fraction": frac.String(), "gap": (freq + d).String(), "nodes": n, "layout": layoutKind, "kubeletBetweenSyncs": kubeletBetween, "failingPodWrite": failWrite, "maxUnavailable": st.RollingUpdate.MaxUnavailable.String()}, n, "")
 	})
 }
